@@ -17,8 +17,10 @@ EXPLANATION = (
     'the numeric kernel, and keep the kernel\'s __name__ (the special-index lookup depends on it); every builtin '
     'referenced by an operator method is decorated with the decorator of that arity.')
 LEVEL_TEXT = ('static sibling agreement over ~150 operator methods, 6 hook families x 4 hooks, 9 composition classes and the '
-              '3 decorator wrappers; decorator/arity agreement of ~110 builtins. Numeric range/inverse laws of the kernels are not decided.')
-LEVEL_NOTE = 'numeric laws (wrap/fold ranges, inverses) quantify over runtime values and are declined'
+              '3 decorator wrappers; decorator/arity agreement of ~110 builtins. Of the numeric laws only structural necessary conditions are decided (see the end of this text); kernel values are not.')
+LEVEL_NOTE = 'kernel values are not decided: a wrong constant or off-by-one inside a numeric kernel (seed C15-a) is not detected; the inverse pairs and the bounds-unmodified clauses are necessary conditions only'
+LEVEL_TEXT_ADD = ' Also: path-sensitive operand provenance and in-value forwarding in the nine composition classes (C15.order); the four conversion pairs as inverse chains, bounds/quantum reach the arithmetic unmodified, integer fast paths test every parameter they read (C15.laws).'
+LEVEL_TEXT = (globals().get('LEVEL_TEXT') or EXPLANATION) + LEVEL_TEXT_ADD
 TECHNIQUE = 'static analysis: sibling-implementation agreement and argument-order rules across hook families'
 
 FAMILIES = [
